@@ -899,6 +899,8 @@ class RouterRun:
 
     # ---- whole run -----------------------------------------------------------------
     def run(self):
+        if self.trace.get("marathon"):
+            self.probes["marathon_history"] += 1
         self._deleted = set()
         self._seen_vals = set()
         self._held_vals = set()
@@ -1021,6 +1023,16 @@ def gen_trace(seed):
     fault_mode = pick_weighted(rc, [("none", 4.0), ("net", 2.0), ("nodata", 2.0), ("both", 2.0)])
     p_unknown = rc.choice([0.0, 0.05, 0.1])
     length = min(60, 1 + int(ro.expovariate(1.0 / 9.0)))
+    marathon = rc.random() < MARATHON_RATE
+    if marathon:
+        # a hub that lives long: hundreds of spins, mostly idle, some traffic -- counters, leaks and back-off logic that
+        # need hundreds of empty polls only show here (cheap in simulation: an idle poll costs microseconds)
+        length = rc.randint(300, 900)
+        wd.update({"spin": 14.0, "get": 3.0, "peer_send": 1.5, "inject": 1.5, "fwd": 0.5, "unfwd": 0.3, "sink": 0.4, "source": 0.2,
+                   "close": 0.05, "closeall": 0.02, "open": 0.2, "openall": 0.2, "idle": 0.3, "send": 0.3, "peer_drain": 0.05})
+        table = [(op, wd[op]) for op in OPS]
+        fault_mode = "none"
+        p_unknown = 0.0
     steps = []
     tok = [0]
 
@@ -1087,9 +1099,16 @@ def gen_trace(seed):
                 out.append({"k": "drop"})
         return out
 
-    if ro.random() < 0.9:
+    if ro.random() < 0.9 or marathon:
         for h in range(n_hubs):
             steps.append({"op": "openall", "h": h})
+    if marathon:
+        for h in range(n_hubs):
+            for e in hubs[h]["eps"]:        # every endpoint is polled by spin: give each a sink or a rule
+                if ro.random() < 0.5:
+                    steps.append({"op": "sink", "h": h, "n": e["n"], "hid": ro.randrange(3)})
+                else:
+                    steps.append({"op": "fwd", "h": h, "i": e["n"], "o": ro.choice(hubs[h]["eps"])["n"]})
     while len(steps) < length:
         op = pick_weighted(ro, table)
         h = ro.randrange(n_hubs)
@@ -1115,6 +1134,8 @@ def gen_trace(seed):
             for n_ in pending[h]:
                 pending[h][n_] = max(0, pending[h][n_] - 1)
             st["k"] = pick_weighted(ro, [(0, 0.3), (1, 4.0), (2, 2.0), (3, 1.0), (5, 0.3), (ro.randint(6, 12), 0.2)])
+            if marathon:
+                st["k"] = ro.choice([4, 8, 12, 12])
             f = fates(4)
             if f:
                 st["fates"] = f
@@ -1166,6 +1187,8 @@ def gen_trace(seed):
             kf = 1 + int(rn.expovariate(1.0))
             trace["nodata"] = sorted(set(rn.randrange(upper) for _ in range(kf)))
     trace["fault_mode"] = fault_mode
+    if marathon:
+        trace["marathon"] = True
     return trace
 
 
@@ -1314,6 +1337,7 @@ TIERS = {
 }
 SWEEP_CAP = 24
 PAIR_SWEEP_MAX_R = 8
+MARATHON_RATE = 0.004
 RULE = ("Seeded generation of router histories (1-2 hubs, 1-4 endpoints each, in-memory doubles and real UDPObjects "
         "on a simulated socket module, 0-3 sinks/sources, 0-3 peers, <=60 steps, per-run op mix and fault mode); "
         "each fault-free-at-k history is re-executed with the no-data fault forced at every receive position k "
@@ -1341,7 +1365,7 @@ EXPECTED_PROBES = [
     "duplicate_datagram_two_fanouts", "multiple_receives_in_one_call", "chained_hub_to_sink",
     "spin_sources_and_rules_same_endpoint", "spin_polled_ready_endpoint", "fanout_ge2_destinations", "fanout_ge2_sinks",
     "none_handle_rejected", "duplicate_sink_rejected", "duplicate_source_rejected", "open_close_state_checked",
-    "sink_reentered_hub",
+    "sink_reentered_hub", "marathon_history",
 ]
 
 
@@ -1355,7 +1379,7 @@ def warmup():
 def variants(trace, run):
     """The no-data fault forced at every receive position of this history (systematic placement)."""
     R = run.net.recv_pos
-    if R == 0:
+    if R == 0 or len(trace["steps"]) > 120:
         return []
     base = list(trace.get("nodata", []))
     if R <= SWEEP_CAP:
